@@ -99,11 +99,16 @@ theorem countDistinct_le (l : List Nat) : countDistinct l ≤ l.length := by
 theorem numTracks_le (es : List ChnaEntry) : numTracks es ≤ es.length := by
   have := countDistinct_le (es.map (·.trackIndex)); simpa [numTracks] using this
 
-theorem junkC_ok : junkC.OK none := ⟨by decide, by decide, by decide, by decide, by decide⟩
+theorem junkC_ok : junkC.OK none := ⟨by decide, by decide, by decide, by decide, by decide, by decide⟩
+
+/-- a chunk whose id is not `data` is never the unset-data-size header -/
+theorem isPlaceholder_of_ne (ds : Option Ds64) {id : Bytes} (sz : Nat) (h : id ≠ idData) :
+    isPlaceholder ds id sz = false := by
+  cases ds <;> simp [isPlaceholder, h]
 
 theorem fmtC_ok (ds : Option Ds64) (hds : ∀ d, ds = some d → d.table = []) (f : Fmt) : (fmtC f).OK ds := by
   refine ⟨by simp only [fmtC]; decide, by simp only [fmtC]; decide, by simp only [fmtC]; decide, ?_,
-    by simp [fmtC, fmtPayload, le_length]⟩
+    by simp [fmtC, fmtPayload, le_length], isPlaceholder_of_ne ds _ (by simp only [fmtC]; decide)⟩
   cases ds with
   | none => simp [effSize, hdrSize, fmtC, fmtPayload, le_length]
   | some d =>
@@ -113,7 +118,8 @@ theorem fmtC_ok (ds : Option Ds64) (hds : ∀ d, ds = some d → d.table = []) (
 theorem metaC_ok (ds : Option Ds64) (hds : ∀ d, ds = some d → d.table = []) {id v : Bytes}
     (hid : id = idAxml ∨ id = idBext) (hv : v.length < 2 ^ 32) : (metaC id v).OK ds := by
   refine ⟨by rcases hid with rfl | rfl <;> simp only [metaC] <;> decide,
-    by rcases hid with rfl | rfl <;> simp only [metaC] <;> decide, hv, ?_, by simp [metaC, pad_length]⟩
+    by rcases hid with rfl | rfl <;> simp only [metaC] <;> decide, hv, ?_, by simp [metaC, pad_length],
+    isPlaceholder_of_ne ds _ (by rcases hid with rfl | rfl <;> simp only [metaC] <;> decide)⟩
   cases ds with
   | none => simp [effSize, hdrSize, metaC]
   | some d =>
@@ -125,7 +131,7 @@ theorem chnaC_ok (ds : Option Ds64) (hds : ∀ d, ds = some d → d.table = []) 
   have hl := chnaPayload_length es h.2
   have := h.1
   refine ⟨by simp only [chnaC]; decide, by simp only [chnaC]; decide, by simp only [chnaC]; omega, ?_,
-    by simp only [chnaC, hl, List.length_nil]; omega⟩
+    by simp only [chnaC, hl, List.length_nil]; omega, isPlaceholder_of_ne ds _ (by simp only [chnaC]; decide)⟩
   cases ds with
   | none => simp [effSize, hdrSize, chnaC]
   | some d =>
